@@ -67,6 +67,31 @@ pub struct Binder<'a> {
     allow_window: bool,
 }
 
+/// The type two differently typed numeric set-operation columns are both cast
+/// to, or `None` when the types are equal or are not a (signed integer / float)
+/// pair this binder widens.
+fn set_op_numeric_supertype(l: &ArrowDataType, r: &ArrowDataType) -> Option<ArrowDataType> {
+    use ArrowDataType::*;
+    let int_rank = |t: &ArrowDataType| match t {
+        Int8 => Some(1),
+        Int16 => Some(2),
+        Int32 => Some(3),
+        Int64 => Some(4),
+        _ => None,
+    };
+    let is_float = |t: &ArrowDataType| matches!(t, Float32 | Float64);
+    if l == r {
+        return None;
+    }
+    match (int_rank(l), int_rank(r)) {
+        (Some(a), Some(b)) => Some(if a >= b { l.clone() } else { r.clone() }),
+        (Some(_), None) if is_float(r) => Some(Float64),
+        (None, Some(_)) if is_float(l) => Some(Float64),
+        (None, None) if is_float(l) && is_float(r) => Some(Float64),
+        _ => None,
+    }
+}
+
 /// `a IS [NOT] DISTINCT FROM b` as a CASE over IS NULL tests — null-safe
 /// equality without new evaluator machinery.
 fn is_distinct_expr(a: Expr, b: Expr, negated: bool) -> Expr {
@@ -291,6 +316,271 @@ impl<'a> Binder<'a> {
         Ok(())
     }
 
+    /// Line the two operands of a set operation up column by column.
+    ///
+    /// Set operations match columns by POSITION. The result takes the left
+    /// operand's column names; a column is nullable if it is on either side.
+    /// Where the two sides disagree on a numeric type, both are cast to the
+    /// wider one so that the rows can be concatenated and compared (`1` and
+    /// `1.0` are the same row; without the cast the two sides reach the
+    /// de-duplicating aggregate as differently typed batches). Any other type
+    /// disagreement is left exactly as written.
+    fn align_set_operands(
+        op: &str,
+        left: LogicalPlan,
+        right: LogicalPlan,
+    ) -> Result<(LogicalPlan, LogicalPlan, PlanSchema)> {
+        let left_schema = left.schema();
+        let right_schema = right.schema();
+        if left_schema.len() != right_schema.len() {
+            return Err(QueryError::Bind(format!(
+                "{op}: both sides must have the same number of columns \
+                 (left has {}, right has {})",
+                left_schema.len(),
+                right_schema.len()
+            )));
+        }
+
+        let mut out_fields = Vec::with_capacity(left_schema.len());
+        let mut casts_needed = false;
+        for (l, r) in left_schema.fields().iter().zip(right_schema.fields()) {
+            let data_type = match set_op_numeric_supertype(&l.data_type, &r.data_type) {
+                Some(wider) => {
+                    casts_needed = true;
+                    wider
+                }
+                None => l.data_type.clone(),
+            };
+            out_fields.push(SchemaField {
+                name: l.name.clone(),
+                data_type,
+                nullable: l.nullable || r.nullable,
+                relation: l.relation.clone(),
+            });
+        }
+        let schema = PlanSchema::new(out_fields);
+        if !casts_needed {
+            return Ok((left, right, schema));
+        }
+
+        // Re-project a side so that its columns have the aligned types. The
+        // column names (and qualifiers) of that side are kept.
+        let cast_side = |plan: LogicalPlan| -> LogicalPlan {
+            let side_schema = plan.schema();
+            let mut exprs = Vec::with_capacity(side_schema.len());
+            let mut fields = Vec::with_capacity(side_schema.len());
+            let mut changed = false;
+            for (f, target) in side_schema.fields().iter().zip(schema.fields()) {
+                let col = Expr::Column(Column {
+                    relation: f.relation.clone(),
+                    name: f.name.clone(),
+                });
+                let widen = set_op_numeric_supertype(&f.data_type, &target.data_type).as_ref()
+                    == Some(&target.data_type);
+                if widen {
+                    changed = true;
+                    exprs.push(
+                        Expr::Cast {
+                            expr: Box::new(col),
+                            data_type: target.data_type.clone(),
+                        }
+                        .alias(f.name.clone()),
+                    );
+                    fields.push(SchemaField {
+                        data_type: target.data_type.clone(),
+                        ..f.clone()
+                    });
+                } else {
+                    exprs.push(col);
+                    fields.push(f.clone());
+                }
+            }
+            if !changed {
+                return plan;
+            }
+            LogicalPlan::Project(ProjectNode {
+                input: Arc::new(plan),
+                exprs,
+                schema: PlanSchema::new(fields),
+            })
+        };
+        Ok((cast_side(left), cast_side(right), schema))
+    }
+
+    /// Lower `left INTERSECT [ALL] right` / `left EXCEPT [ALL] right`.
+    ///
+    /// With `m` copies of a row on the left and `n` on the right the result
+    /// holds `min(m, n)` (INTERSECT ALL), `max(m - n, 0)` (EXCEPT ALL),
+    /// `m > 0 && n > 0` (INTERSECT) or `m > 0 && n == 0` (EXCEPT) copies, and
+    /// rows are compared with NULLs NOT DISTINCT: a NULL matches a NULL. A
+    /// semi/anti join on `=` gives neither -- `NULL = NULL` is not true, and a
+    /// join keeps every left copy whatever the right-hand count is -- so the
+    /// operators are planned as a grouping instead, because GROUP BY is the
+    /// operator whose key comparison already treats NULLs as equal:
+    ///
+    /// ```text
+    /// Project   [c0 AS <left name 0>, ...]
+    ///   Filter  SUM(l) > 0 AND SUM(r) > 0          -- INTERSECT
+    ///           SUM(l) > 0 AND SUM(r) = 0          -- EXCEPT
+    ///     Aggregate  GROUP BY c0, ..[, rn]  SUM(l), SUM(r)
+    ///       Union ALL
+    ///         [Window rn = ROW_NUMBER() OVER (PARTITION BY c0, ..)]   -- ALL only
+    ///           Project [left  cols AS c0.., 1 AS l, 0 AS r]
+    ///         [Window rn = ...]
+    ///           Project [right cols AS c0.., 0 AS l, 1 AS r]
+    /// ```
+    ///
+    /// For the ALL forms each side first numbers the copies of every row
+    /// (1..=m on the left, 1..=n on the right; PARTITION BY also keeps NULL
+    /// keys together). `(row, rn)` is then unique within a side, the k-th left
+    /// copy meets the k-th right copy in one group, and exactly `min(m, n)`
+    /// groups have both sides while exactly `max(m - n, 0)` have only the left.
+    fn bind_intersect_or_except(
+        op: &str,
+        left: LogicalPlan,
+        right: LogicalPlan,
+        all: bool,
+    ) -> Result<LogicalPlan> {
+        let is_intersect = op == "INTERSECT";
+        let (left, right, out_schema) = Self::align_set_operands(op, left, right)?;
+        // Every column becomes a grouping key, and a nested value has no
+        // hashable equality.
+        crate::planner::vector_types::require_scalar_row(&out_schema, op)?;
+
+        // Internal names: positional, so the two sides agree on them whatever
+        // their own columns are called.
+        const LEFT_MARK: &str = "__setop_l";
+        const RIGHT_MARK: &str = "__setop_r";
+        const COPY_NO: &str = "__setop_rn";
+        let key_names: Vec<String> = (0..out_schema.len())
+            .map(|i| format!("__setop_c{i}"))
+            .collect();
+        let key_cols: Vec<Expr> = key_names.iter().map(|n| Expr::column(n.clone())).collect();
+        let int = |v: i64| Expr::Literal(ScalarValue::Int64(v));
+
+        let tag_side = |plan: LogicalPlan, is_left: bool| -> Result<LogicalPlan> {
+            let side_schema = plan.schema();
+            let mut exprs = Vec::with_capacity(side_schema.len() + 2);
+            let mut fields = Vec::with_capacity(side_schema.len() + 2);
+            for ((f, out), key) in side_schema
+                .fields()
+                .iter()
+                .zip(out_schema.fields())
+                .zip(&key_names)
+            {
+                exprs.push(
+                    Expr::Column(Column {
+                        relation: f.relation.clone(),
+                        name: f.name.clone(),
+                    })
+                    .alias(key.clone()),
+                );
+                fields.push(
+                    SchemaField::new(key.clone(), f.data_type.clone()).with_nullable(out.nullable),
+                );
+            }
+            for (mark, on) in [(LEFT_MARK, is_left), (RIGHT_MARK, !is_left)] {
+                exprs.push(int(on as i64).alias(mark));
+                fields.push(SchemaField::new(mark, ArrowDataType::Int64).with_nullable(false));
+            }
+            let mut tagged = LogicalPlan::Project(ProjectNode {
+                input: Arc::new(plan),
+                exprs,
+                schema: PlanSchema::new(fields),
+            });
+
+            if all {
+                use crate::planner::logical_expr::{
+                    FrameBound, FrameUnits, WindowExpr, WindowFrame, WindowFunc,
+                };
+                let copy_no = WindowExpr {
+                    func: WindowFunc::RowNumber,
+                    args: vec![],
+                    partition_by: key_cols.clone(),
+                    order_by: vec![],
+                    frame: WindowFrame {
+                        units: FrameUnits::Rows,
+                        start: FrameBound::UnboundedPreceding,
+                        end: FrameBound::UnboundedFollowing,
+                        explicit: false,
+                    },
+                };
+                let tagged_schema = tagged.schema();
+                let dt =
+                    Expr::WindowFunction(Box::new(copy_no.clone())).data_type(&tagged_schema)?;
+                let mut fields = tagged_schema.fields().to_vec();
+                fields.push(SchemaField::new(COPY_NO, dt));
+                tagged = LogicalPlan::Window(crate::planner::WindowNode {
+                    input: Arc::new(tagged),
+                    window_exprs: vec![(COPY_NO.to_string(), copy_no)],
+                    schema: PlanSchema::new(fields),
+                });
+            }
+            Ok(tagged)
+        };
+
+        let left = tag_side(left, true)?;
+        let right = tag_side(right, false)?;
+        let both_schema = left.schema();
+        let both = LogicalPlan::Union(crate::planner::UnionNode {
+            inputs: vec![Arc::new(left), Arc::new(right)],
+            schema: both_schema.clone(),
+            all: true,
+        });
+
+        // m and n per distinct row (per copy number for the ALL forms).
+        let mut group_by = key_cols.clone();
+        if all {
+            group_by.push(Expr::column(COPY_NO));
+        }
+        let count = |mark: &str| Expr::Aggregate {
+            func: AggregateFunction::Sum,
+            args: vec![Expr::column(mark)],
+            distinct: false,
+        };
+        let aggregates = vec![count(LEFT_MARK), count(RIGHT_MARK)];
+        let mut agg_fields = Vec::with_capacity(group_by.len() + aggregates.len());
+        for e in &group_by {
+            agg_fields.push(e.to_field(&both_schema)?);
+        }
+        for a in &aggregates {
+            agg_fields.push(SchemaField::new(
+                a.output_name(),
+                a.data_type(&both_schema)?,
+            ));
+        }
+        let m = Expr::column(aggregates[0].output_name());
+        let n = Expr::column(aggregates[1].output_name());
+        let counted = LogicalPlan::Aggregate(AggregateNode {
+            input: Arc::new(both),
+            group_by,
+            aggregates,
+            schema: PlanSchema::new(agg_fields),
+        });
+
+        let keep = if is_intersect {
+            m.gt(int(0)).and(n.gt(int(0)))
+        } else {
+            m.gt(int(0)).and(n.eq(int(0)))
+        };
+        let kept = LogicalPlan::Filter(FilterNode {
+            input: Arc::new(counted),
+            predicate: keep,
+        });
+
+        // Back to the left operand's column names (and qualifiers).
+        let exprs = key_cols
+            .into_iter()
+            .zip(out_schema.fields())
+            .map(|(c, f)| c.alias(f.name.clone()))
+            .collect();
+        Ok(LogicalPlan::Project(ProjectNode {
+            input: Arc::new(kept),
+            exprs,
+            schema: out_schema,
+        }))
+    }
+
     fn bind_set_expr(&mut self, set_expr: &SetExpr) -> Result<LogicalPlan> {
         match set_expr {
             SetExpr::Select(select) => self.bind_select(select),
@@ -304,15 +594,15 @@ impl<'a> Binder<'a> {
             } => {
                 let left_plan = self.bind_set_expr(left)?;
                 let right_plan = self.bind_set_expr(right)?;
+                let all = matches!(set_quantifier, ast::SetQuantifier::All);
 
                 match op {
                     ast::SetOperator::Minus => {
-                        return Err(QueryError::NotImplemented("MINUS (use EXCEPT)".to_string()))
+                        Err(QueryError::NotImplemented("MINUS (use EXCEPT)".to_string()))
                     }
                     ast::SetOperator::Union => {
-                        let schema = left_plan.schema();
-                        // UNION ALL keeps duplicates, plain UNION removes them
-                        let all = matches!(set_quantifier, ast::SetQuantifier::All);
+                        let (left_plan, right_plan, schema) =
+                            Self::align_set_operands("UNION", left_plan, right_plan)?;
                         // Plain UNION de-duplicates on every column, which a
                         // nested column cannot do; UNION ALL just concatenates
                         // and is fine.
@@ -326,85 +616,10 @@ impl<'a> Binder<'a> {
                         }))
                     }
                     ast::SetOperator::Intersect => {
-                        // INTERSECT is implemented as a semi-join on all columns
-                        let left_schema = left_plan.schema();
-                        let right_schema = right_plan.schema();
-                        // Every column becomes a join key, and a nested value
-                        // has no hashable equality.
-                        crate::planner::vector_types::require_scalar_row(
-                            &left_schema,
-                            "INTERSECT",
-                        )?;
-
-                        // Create join conditions on all columns
-                        let on: Vec<(Expr, Expr)> = left_schema
-                            .fields()
-                            .iter()
-                            .zip(right_schema.fields().iter())
-                            .map(|(l, r)| {
-                                (
-                                    Expr::Column(Column::new(l.name.clone())),
-                                    Expr::Column(Column::new(r.name.clone())),
-                                )
-                            })
-                            .collect();
-
-                        let join = LogicalPlan::Join(crate::planner::JoinNode {
-                            left: Arc::new(left_plan),
-                            right: Arc::new(right_plan),
-                            join_type: crate::planner::JoinType::Semi,
-                            on,
-                            filter: None,
-                            schema: left_schema.clone(),
-                        });
-
-                        // INTERSECT removes duplicates by default (unless INTERSECT ALL)
-                        let all = matches!(set_quantifier, ast::SetQuantifier::All);
-                        if !all {
-                            Ok(LogicalPlan::Distinct(crate::planner::DistinctNode {
-                                input: Arc::new(join),
-                            }))
-                        } else {
-                            Ok(join)
-                        }
+                        Self::bind_intersect_or_except("INTERSECT", left_plan, right_plan, all)
                     }
                     ast::SetOperator::Except => {
-                        // EXCEPT is implemented as an anti-join on all columns
-                        let left_schema = left_plan.schema();
-                        let right_schema = right_plan.schema();
-                        crate::planner::vector_types::require_scalar_row(&left_schema, "EXCEPT")?;
-
-                        // Create join conditions on all columns
-                        let on: Vec<(Expr, Expr)> = left_schema
-                            .fields()
-                            .iter()
-                            .zip(right_schema.fields().iter())
-                            .map(|(l, r)| {
-                                (
-                                    Expr::Column(Column::new(l.name.clone())),
-                                    Expr::Column(Column::new(r.name.clone())),
-                                )
-                            })
-                            .collect();
-
-                        let join = LogicalPlan::Join(crate::planner::JoinNode {
-                            left: Arc::new(left_plan),
-                            right: Arc::new(right_plan),
-                            join_type: crate::planner::JoinType::Anti,
-                            on,
-                            filter: None,
-                            schema: left_schema.clone(),
-                        });
-
-                        // EXCEPT removes duplicates by default (unless EXCEPT ALL)
-                        let all = matches!(set_quantifier, ast::SetQuantifier::All);
-                        if !all {
-                            Ok(LogicalPlan::Distinct(crate::planner::DistinctNode {
-                                input: Arc::new(join),
-                            }))
-                        } else {
-                            Ok(join)
-                        }
+                        Self::bind_intersect_or_except("EXCEPT", left_plan, right_plan, all)
                     }
                 }
             }
